@@ -400,8 +400,9 @@ class Ctx:
               "coverage": self.cov, "assumptions": self.assumptions,
               "wall_s": round(time.time() - self.t0, 2), "violations": nviol,
               "known_findings_reported": sorted(printed), "notes": self.notes}
-        os.makedirs(os.path.join(ROOT, "evidence"), exist_ok=True)
-        with open(os.path.join(ROOT, "evidence", self.prop + ".json"), "w") as f:
+        evdir = os.environ.get("VERIF_EVIDENCE", os.path.join(ROOT, "evidence"))
+        os.makedirs(evdir, exist_ok=True)
+        with open(os.path.join(evdir, self.prop + ".json"), "w") as f:
             json.dump(ev, f, indent=1, sort_keys=True)
         print("%s: %d evaluations, %d distinct cells, %d/%d obligations, %d violation(s), %.1fs" % (
             self.prop, self.cov["evaluations"], len(self.cells), self.cov["discharged"],
